@@ -195,6 +195,17 @@ def _clip_chain_order_matters(m):
         a, b, cc, d = (lo1 if lo1 is not None else -inf), (hi1 if hi1 is not None else inf), (lo2 if lo2 is not None else -inf), (hi2 if hi2 is not None else inf)
         if a > b or cc > d or b < cc or d < a:
             return True
+        # longer chains are fused step by step: the interval accumulated over the chain so far (max of the lows, min of the highs) may
+        # be disjoint from the next Clip although every adjacent pair overlaps (Clip(Clip(Clip(x, -1, 3), 2), 6): [2, 3] then [6, inf))
+        lo_acc, hi_acc, q = max(a, cc), min(b, d), p
+        while True:
+            q = prod.get(q.input[0]) if q.input else None
+            if q is None or q.op_type != "Clip":
+                break
+            lo0, hi0 = _clip_bounds(q, c)
+            lo_acc, hi_acc = max(lo_acc, lo0 if lo0 is not None else -inf), min(hi_acc, hi0 if hi0 is not None else inf)
+        if lo_acc > hi_acc:
+            return True
     return False
 
 
